@@ -86,12 +86,20 @@ impl Envelope {
         }
     }
 
-    /// If the envelope's subject is an assertion return it, else return `None`.
-    pub fn as_assertion(&self) -> Option<Self> {
-        match self.subject().case() {
-            EnvelopeCase::Assertion(_) => Some(self.clone()),
+    /// The assertion at the core of this envelope: the envelope itself if it is an
+    /// assertion, otherwise its subject, looked up through every level of assertions
+    /// added to it (an assertion may carry assertions which may carry assertions).
+    fn core_assertion(&self) -> Option<&Assertion> {
+        match self.case() {
+            EnvelopeCase::Assertion(assertion) => Some(assertion),
+            EnvelopeCase::Node { subject, .. } => subject.core_assertion(),
             _ => None,
         }
+    }
+
+    /// If the envelope's subject is an assertion return it, else return `None`.
+    pub fn as_assertion(&self) -> Option<Self> {
+        self.core_assertion().map(|_| self.clone())
     }
 
     /// If the envelope's subject is an assertion return it, else return an error.
@@ -101,10 +109,7 @@ impl Envelope {
 
     /// The envelope's predicate, or `None` if the envelope is not an assertion.
     pub fn as_predicate(&self) -> Option<Self> {
-        match self.subject().case() {
-            EnvelopeCase::Assertion(assertion) => Some(assertion.predicate()),
-            _ => None,
-        }
+        self.core_assertion().map(|assertion| assertion.predicate())
     }
 
     /// The envelope's predicate, or an error if the envelope is not an assertion.
@@ -114,10 +119,7 @@ impl Envelope {
 
     /// The envelope's object, or `None` if the envelope is not an assertion.
     pub fn as_object(&self) -> Option<Self> {
-        match self.subject().case() {
-            EnvelopeCase::Assertion(assertion) => Some(assertion.object()),
-            _ => None,
-        }
+        self.core_assertion().map(|assertion| assertion.object())
     }
 
     /// The envelope's object, or an error if the envelope is not an assertion.
